@@ -14,7 +14,8 @@ def search():
     for allowed in [None] + subsets:
         for req in subsets:
             ok = allowed is None or req <= allowed
-            for entry, prior in itertools.product(("metabolize-auto", "metabolize-forced", "execute_tool_call", "tool-loop", "registered-function"),
+            for entry, prior in itertools.product(("metabolize-auto", "metabolize-forced", "execute_tool_call", "tool-loop", "registered-function",
+                                                   "registered-function-inside-expression", "registered-function-forced-math"),
                                                   ("none", "same-name-cleared-first", "capabilities-raised-in-place")):
                 n += 1
                 ran = []
@@ -29,7 +30,7 @@ def search():
                 if prior == "capabilities-raised-in-place" and entry != "registered-function":
                     t0.func = lambda *a, **k: ran.append(1) or 1
                     t0.required_capabilities = set(req)
-                elif entry == "registered-function":
+                elif entry.startswith("registered-function"):
                     m.register_function("t", lambda *a, **k: ran.append(1) or 1, required_capabilities=set(req))
                 else:
                     m.engulf_tool(SimpleTool(name="t", description="d", func=lambda *a, **k: ran.append(1) or 1,
@@ -37,6 +38,12 @@ def search():
                 with contextlib.redirect_stdout(io.StringIO()):
                     if entry in ("metabolize-auto", "registered-function"):
                         r = m.metabolize("t(1)")
+                        success = r.success
+                    elif entry == "registered-function-inside-expression":
+                        r = m.metabolize("0 + t(1)")           # the evaluator must not know tool names: fails for allowed and disallowed tools alike
+                        success = r.success
+                    elif entry == "registered-function-forced-math":
+                        r = m.metabolize("t(1)", pathway=MetabolicPathway.GLYCOLYSIS)
                         success = r.success
                     elif entry == "metabolize-forced":
                         r = m.metabolize("t(1)", pathway=MetabolicPathway.OXIDATIVE)
@@ -67,14 +74,14 @@ def search():
                                f"allowed_capabilities={None if allowed is None else sorted(c.name for c in allowed)}")
                 if not ok and success:
                     return n, f"{entry}: refusal reported as success"
-                if ok and entry != "tool-loop" and not ran:
+                if ok and entry not in ("tool-loop", "registered-function-inside-expression", "registered-function-forced-math") and not ran:
                     return n, f"{entry}: authorised tool did not run (check too strict?)"
     return n, None
 
 
 if __name__ == "__main__":
     n, bad = search()
-    out = {"status": "ok" if bad is None else "violation", "bound": "allowed/required capability sets over 3 capabilities x 5 entry points x 3 registration histories", "cases": n}
+    out = {"status": "ok" if bad is None else "violation", "bound": "allowed/required capability sets over 3 capabilities x 7 entry points x 3 registration histories", "cases": n}
     if bad:
         out["detail"] = bad
         os.makedirs("replays", exist_ok=True)
